@@ -79,6 +79,18 @@ T = {
            "truncateBlocks(eps>0) that discards blocks AND a block-changing bilinear (spin flip) whose source block is retained while its target block is truncated"),
  "C20-b": ("C20", "the 6-argument LatticePresets::addHopping compares Label1's spin size with itself (the guard never fires)",
            "two sites with different spin sizes and this overload: the exception comes only after some terms were stored, or not at all"),
+ "C10-c": ("C10", "FieldOperatorContainer::computeAll fills the column-major copy of each annihilation-operator block with transpose() instead of adjoint() (complex build only)",
+           "POMEROL_COMPLEX_MATRIX_ELEMENTS build, complex hopping amplitudes, operators made by the container, a consumer of getColMajorValue() of c"),
+ "C01-c": ("C01", "HamiltonianPart::prepare re-enables the commented-out symmetrisation with transpose() where an adjoint is needed: in the complex build H^T is diagonalised",
+           "complex build, a hopping amplitude with non-zero imaginary part, an off-diagonal G_ij (the library returns G_ji)"),
+ "C06-c": ("C06", "Hamiltonian::compute takes a local shortcut when the communicator has more ranks than blocks and returns before computeGroundEnergy(): the ground energy stays uninitialised",
+           "an MPI rank count strictly above the number of symmetry blocks; spectrum and eigenvectors stay correct, getGroundEnergy() is wrong on every rank"),
+ "C12-b": ("C12", "TwoParticleGFPart::operator() calls ResonantTerms(z1,z2,z3) without the configured tolerance, so the default 1e-16 of the term's call operator decides resonance",
+           "degenerate many-body eigenstates from a numerically diagonalised block (energies differing by rounding noise), a quadruple connecting them and a coinciding-frequency triple"),
+ "C17-c": ("C17", "ElementWithPermFreq::FrequenciesPermutation becomes a reference member bound to a by-value constructor argument: it dangles as soon as IndexContainer4::set returns",
+           "evaluating a filled TwoParticleGFContainer entry through the decorator's own call operator (stack-use-after-return / garbage permutation indices)"),
+ "C08-b": ("C08", "GreensFunction::prepare clears Vanishing only when there is more than one world stripe",
+           "a partition in which G_ij has exactly one stripe: symmetries ignored (every G becomes 0), or a custom set such as N_up alone"),
 }
 results = {}
 for log in sys.argv[1:]:
